@@ -284,13 +284,18 @@ fn fixed_cases(r: &mut Rng, out: &mut String) {
     );
     // argmax directly on the input, partial activation on the 1-dimensional result, index 1 rejected
     run_seq("fixD", 3, &[Call::Argmax, Call::PHTanh(0), Call::PRelu(1), Call::Linear(l12), Call::Leaky(0.5)], r, true, out);
-    run_seq("fixE", 2, &[Call::Linear(l21), Call::Argmax, Call::Relu, Call::Linear(id2)], r, true, out);
+    run_seq("fixE", 2, &[Call::Linear(l21), Call::Argmax, Call::Relu, Call::Linear(id2.clone())], r, true, out);
+    // raw layer lists with layers behind a head
+    let l12b = AffFunc::from_mats(Array2::from_shape_vec((2, 1), vec![2.0, -1.0]).unwrap(), Array1::from_vec(vec![0.0, 0.5]));
+    distill_fixed("fixF", 2, vec![Layer::Linear(id2.clone()), Layer::ClassChar(1), Layer::Linear(l12b.clone()), Layer::ReLU(1)], out);
+    distill_fixed("fixG", 3, vec![Layer::Argmax, Layer::ReLU(0), Layer::Linear(l12b.clone()), Layer::ClassChar(0), Layer::HardTanh(0)], out);
+    distill_fixed("fixH", 2, vec![Layer::ClassChar(0), Layer::Argmax], out);
 }
 
 // ------------------------------------------------------------------------------------------------ raw layer lists
 fn distill_case(r: &mut Rng, id: usize, out: &mut String) {
     let in_dim = 1 + r.below(3);
-    let n = 1 + r.below(5);
+    let n = 1 + r.below(6);
     let mut layers = Vec::new();
     let mut cur = in_dim;
     let mut acts = 0;
@@ -311,7 +316,7 @@ fn distill_case(r: &mut Rng, id: usize, out: &mut String) {
                 2 => Layer::HardTanh(i),
                 _ => Layer::HardSigmoid(i),
             });
-        } else if k < 85 {
+        } else if k < 80 {
             layers.push(Layer::Argmax);
             cur = 1;
         } else {
@@ -323,6 +328,18 @@ fn distill_case(r: &mut Rng, id: usize, out: &mut String) {
     let ls: Vec<String> = layers.iter().map(sx_layer).collect();
     let l2 = layers.clone();
     let res = catch(AssertUnwindSafe(move || afftree_from_layers(in_dim, &l2, None)));
+    let rs = match &res {
+        Ok(t) => {
+            let od = t.terminals().map(|x| x.aff.outdim()).next().map(|d| d.to_string()).unwrap_or("-".to_string());
+            format!("(ok {} {})", t.in_dim(), od)
+        }
+        Err(m) => format!("(panic {})", quote(m)),
+    };
+    writeln!(out, "(case {} distill {} (layers {}) {})", id, in_dim, ls.join(" "), rs).unwrap();
+}
+fn distill_fixed(id: &str, in_dim: usize, layers: Vec<Layer>, out: &mut String) {
+    let ls: Vec<String> = layers.iter().map(sx_layer).collect();
+    let res = catch(AssertUnwindSafe(move || afftree_from_layers(in_dim, &layers, None)));
     let rs = match &res {
         Ok(t) => {
             let od = t.terminals().map(|x| x.aff.outdim()).next().map(|d| d.to_string()).unwrap_or("-".to_string());
